@@ -723,7 +723,9 @@ def main(chk: C.Check, build: C.Build) -> None:
                     chk.finding("oracle:trim-not-adjacent",
                                 f"a text is trimmed by markers that are not the adjacent ones: wanted {bad[0]}, parser gave {bad[1]} in {src!r}",
                                 {"source": src, "default_trim": dt, "adjacent": want_adj, "parser": have_adj})
-                mk = C.clist((f"({WC_COQ[l]}, {WC_COQ[rr]})" for _, l, rr in res["pairs"]), "(wc * wc)")
+                mk = 1                                   # Trim.pairs_code
+                for _, l, rr in reversed(res["pairs"]):
+                    mk = MARKS.index(l) + 4 * (MARKS.index(rr) + 4 * mk)
                 rw = C.clist((str(tbl(x)) for x in res["raws"]), "N")
                 if texts_expected is None:
                     texts_expected = [t for t, _, _ in res["pairs"]]
